@@ -25,6 +25,16 @@ MOLECULES = {
         (['F@1C=%0', '%0=C@2CC@3C=%1', '%1=C@4Cl'], 'chain'),
         (['F@1C=%0', '%0=C@2C%1', '%1C@3C=C@4Cl'], 'chain'),
     ]),
+    'branched_fluorobutene': ('CC(C)@1C=C@2F', [          # a slash directly after a closed branch
+        (['CC(C)@1C=%0', '%0=C@2F'], 'chain'),
+        (['C%0', '%0C(C)@1C=C@2F'], 'chain'),
+        (['CC(C)@1C=C@2%0', '%0@2F'], 'chain'),
+    ]),
+    'chlorobutene': ('Cl@1C=C@2CC', [                     # cut at the single bond next to the double bond, slash repeated on both sides
+        (['Cl@1C=C@2%0', '%0@2CC'], 'chain'),
+        (['Cl@1C=%0', '%0=C@2CC'], 'chain'),
+        (['Cl@1%0', '%0@1C=C@2CC'], 'chain'),
+    ]),
     'chiral_centre': ('C[C;x=@x](F)(Cl)N', [
         (['C%0', '%0[C;x=@x](F)(Cl)N'], 'chain'),
         (['C[C;x=@x](%0)(Cl)N', 'F%0'], 'chain'),
@@ -35,7 +45,7 @@ MOLECULES = {
         (['F@1C=C@2[C;x=@x](Cl)(%0)C', 'N%0'], 'chain'),
     ]),
 }
-QUICK = ['difluoroethene', 'difluorobutene', 'butene', 'chiral_centre']
+QUICK = ['difluoroethene', 'difluorobutene', 'butene', 'chiral_centre', 'branched_fluorobutene', 'chlorobutene']
 
 
 def ez_classes(moldata):
